@@ -1,1 +1,242 @@
-From Verif Require Import Base.Prelude Model.C14.
+(** C14 — top-level lemmas: soundness of the boolean state check, any schedule of compaction
+    events preserves every answer, characterisation of the tag-value series set, reopen, and the
+    refutation witnesses of the full statement. *)
+From Verif Require Import Base.Prelude Model.C14 Proofs.C14_sets Proofs.C14_bytes Proofs.C14_compact
+  Proofs.C14_merge Proofs.C14_events.
+Local Open Scope N_scope.
+
+Lemma aget_in {V} k (l : list (str * V)) x : aget k l = Some x -> In (k, x) l.
+Proof.
+  induction l as [|[k0 v0] l IH]; cbn [aget]; [discriminate|].
+  destruct (str_eqb k k0) eqn:E.
+  - apply str_eqb_spec in E. subst. intro H. inversion H. cbn. auto.
+  - intro H. cbn. right. apply IH. exact H.
+Qed.
+
+Lemma st_okb_ok st : st_okb st = true -> st_ok st.
+Proof.
+  unfold st_okb. rewrite forallb_forall. intro H. split.
+  - intros p Hp f m k x Hf Hk. specialize (H p Hp). rewrite forallb_forall in H.
+    specialize (H f Hf). apply andb_true_iff in H as [H _]. unfold file_no_key_tomb in H.
+    rewrite forallb_forall in H. apply fkey_some_fmeas in Hk as [mm [Hm Hk]].
+    apply aget_in in Hm. apply aget_in in Hk. specialize (H (m, mm) Hm). cbn [snd] in H.
+    rewrite forallb_forall in H. specialize (H (k, x) Hk). cbn [snd] in H. apply negb_true_iff in H. exact H.
+  - intros p f z Hp Hf Hz. specialize (H p Hp). rewrite forallb_forall in H.
+    specialize (H f Hf). apply andb_true_iff in H as [_ H]. rewrite forallb_forall in H.
+    apply smem_in. apply H. exact Hz.
+Qed.
+
+(** ** events preserve the state condition *)
+Lemma splice_no_key_tomb p p' : splice_of p p' -> no_key_tomb (p_files p) -> no_key_tomb (p_files p').
+Proof.
+  intros [E | (x & run & pre & post & E1 & E2 & R)] NT; [rewrite E; exact NT|].
+  rewrite E1. rewrite E2 in NT. intros f m k tk Hf Hk.
+  apply in_app_or in Hf as [Hf | [<- | Hf]].
+  - apply (NT f m k tk); [apply in_or_app; auto | exact Hk].
+  - pose proof (r_key x run R m k) as RK. rewrite Hk in RK. cbn [option_map] in RK.
+    destruct (first_some (fun f => fkey f m k) run) as [tk'|] eqn:F; [|discriminate].
+    cbn in RK. inversion RK as [E]. rewrite E. apply first_some_in in F as [g [Hg F]].
+    apply (NT g m k tk'); [apply in_or_app; right; apply in_or_app; auto | exact F].
+  - apply (NT f m k tk); [apply in_or_app; right; apply in_or_app; auto | exact Hk].
+Qed.
+Lemma splice_ts p p' : splice_of p p' ->
+  forall f z, In f (p_files p') -> In z (f_ts f) -> exists g, In g (p_files p) /\ In z (f_ts g).
+Proof.
+  intros [E | (x & run & pre & post & E1 & E2 & R)] f z Hf Hz; [rewrite E in Hf; eauto|].
+  rewrite E1 in Hf. rewrite E2. apply in_app_or in Hf as [Hf | [<- | Hf]].
+  - exists f. split; [apply in_or_app; auto | exact Hz].
+  - apply (r_ts x run R) in Hz as [g [Hg Hz]]. exists g. split; [apply in_or_app; right; apply in_or_app; auto | exact Hz].
+  - exists f. split; [apply in_or_app; right; apply in_or_app; auto | exact Hz].
+Qed.
+
+Lemma event_ok st o : is_event o -> st_ok st -> st_ok (step st o).
+Proof.
+  intros EV [NT TS]. destruct (event_step o EV) as (n & g & _ & E & SP). rewrite E.
+  split; cbn [i_parts i_sdel set_parts].
+  - intros p Hp. apply in_upd_nth in Hp as [Hp | [b [Hb ->]]]; [apply NT; exact Hp|].
+    apply (splice_no_key_tomb b); [apply SP, NT, Hb | apply NT, Hb].
+  - intros p f z Hp Hf Hz. apply in_upd_nth in Hp as [Hp | [b [Hb ->]]]; [exact (TS p f z Hp Hf Hz)|].
+    destruct (splice_ts b (g b) (SP b (NT b Hb)) f z Hf Hz) as [g0 [Hg0 Hz0]]. exact (TS b g0 z Hb Hg0 Hz0).
+Qed.
+
+(** ** any schedule of events preserves every answer *)
+Definition same_answers (a b : index) : Prop :=
+  (forall m, In m (i_meas a) <-> In m (i_meas b)) /\
+  (forall m k, In k (i_keys a m) <-> In k (i_keys b m)) /\
+  (forall m k v, In v (i_vals a m k) <-> In v (i_vals b m k)) /\
+  (forall m y, In y (i_mseries a m) <-> In y (i_mseries b m)) /\
+  (forall m k y, In y (i_kseries a m k) <-> In y (i_kseries b m k)) /\
+  (forall m k v y, In y (snd (i_vseries a m k v)) <-> In y (snd (i_vseries b m k v))).
+
+Lemma same_answers_refl a : same_answers a a.
+Proof. repeat split; tauto. Qed.
+Lemma same_answers_trans a b c : same_answers a b -> same_answers b c -> same_answers a c.
+Proof.
+  intros (A1 & A2 & A3 & A4 & A5 & A6) (B1 & B2 & B3 & B4 & B5 & B6).
+  repeat split; intros.
+  all: try (rewrite A1 + rewrite A2 + rewrite A3 + rewrite A4 + rewrite A5 + rewrite A6);
+       try (rewrite B1 + rewrite B2 + rewrite B3 + rewrite B4 + rewrite B5 + rewrite B6); try tauto.
+  all: try (rewrite <- B1 + rewrite <- B2 + rewrite <- B3 + rewrite <- B4 + rewrite <- B5 + rewrite <- B6);
+       try (rewrite <- A1 + rewrite <- A2 + rewrite <- A3 + rewrite <- A4 + rewrite <- A5 + rewrite <- A6); tauto.
+Qed.
+
+Theorem one_event st o : is_event o -> st_ok st -> i_cache st = None -> same_answers (step st o) st.
+Proof.
+  intros EV OK C. repeat split.
+  all: try (apply event_meas + apply event_keys + apply event_vals + apply event_mseries + apply event_kseries); try assumption.
+  all: try (apply (proj1 (event_vseries st o EV OK m k v y C))).
+  all: try (apply (proj2 (event_vseries st o EV OK m k v y C))).
+Qed.
+
+Theorem any_schedule evs : forall st, Forall is_event evs -> st_ok st -> i_cache st = None ->
+  same_answers (fold_left step evs st) st /\ st_ok (fold_left step evs st).
+Proof.
+  induction evs as [|o evs IH]; intros st HF OK C; cbn [fold_left].
+  - split; [apply same_answers_refl | exact OK].
+  - inversion HF as [|? ? Ho Hevs]; subst.
+    assert (OK' : st_ok (step st o)) by (apply event_ok; assumption).
+    assert (C' : i_cache (step st o) = None) by (rewrite (ev_cache st o Ho); exact C).
+    destruct (IH (step st o) Hevs OK' C') as [SA OK2]. split; [|exact OK2].
+    eapply same_answers_trans; [exact SA|]. apply one_event; assumption.
+Qed.
+
+(** ** the tag-value series set seen by the query layer = ids recorded for the value in some
+    file, minus the ids deleted in the series file (tombstone handling of
+    FileSet.TagValueSeriesIDIterator is invisible after the series-file filter) *)
+Theorem vseries_char st m k v y : i_cache st = None ->
+  (forall p f z, In p (i_parts st) -> In f (p_files p) -> In z (f_ts f) -> In z (i_sdel st)) ->
+  (In y (snd (i_vseries st m k v)) <->
+   not_deleted st y = true /\ exists p f, In p (i_parts st) /\ In f (p_files p) /\ vids_of f m k v y).
+Proof.
+  intros C TS. rewrite i_vseries_in by exact C. split.
+  - intros [ND [p [Hp H]]]. split; [exact ND|]. apply q_vseries_sub in H as [f [Hf H]]. eauto.
+  - intros [ND [p [f [Hp [Hf H]]]]]. split; [exact ND|]. exists p. split; [exact Hp|].
+    apply q_vseries_sup; [|eauto]. intros g Hg Hin.
+    unfold not_deleted in ND. apply andb_true_iff in ND as [ND _]. apply negb_true_iff, smem_false in ND.
+    apply ND. exact (TS p g y Hp Hg Hin).
+Qed.
+
+(** ** reopen *)
+Section Reopen.
+  Variable crc : list N -> N.
+  Hypothesis crc_range : forall l, crc l < 2 ^ 32.
+
+  (** a log file is rebuilt from its BYTES exactly as it was *)
+  Theorem reopen_log_file sf f : Forall wf_entry (f_log f) -> replay sf (f_log f) = f ->
+    replay sf (fst (recover crc (enc_log crc (f_log f)))) = f.
+  Proof. intros W E. rewrite (recover_roundtrip crc crc_range) by exact W. exact E. Qed.
+
+  Theorem reopen_partition sf maxlog p :
+    (forall f, In f (p_files p) -> f_level f = 0 -> replay sf (f_log f) = f) ->
+    splice_of p (p_reopen sf maxlog p).
+  Proof.
+    intro H. unfold p_reopen.
+    assert (E : map (fun f => if N.eqb (f_level f) 0 then replay sf (f_log f) else f) (p_files p) = p_files p).
+    { rewrite <- (map_id (p_files p)) at 2. apply map_ext_in. intros f Hf.
+      destruct (N.eqb (f_level f) 0) eqn:L; [|reflexivity]. apply H; [exact Hf | apply N.eqb_eq; exact L]. }
+    rewrite E. cbn [p_files]. destruct (p_files p) as [|a r] eqn:F.
+    - right. exists empty_log, [], [], []. cbn.
+      split; [reflexivity | split; [exact F | apply replaces_empty]].
+    - destruct (N.eqb (f_level a) 0 && N.ltb (log_size a) maxlog); [left; cbn; symmetry; exact F|].
+      right. exists empty_log, [], [], (a :: r). cbn.
+      split; [reflexivity | split; [exact F | apply replaces_empty]].
+  Qed.
+End Reopen.
+
+(** ** refutation witnesses of the full statement (replayed on the real index by the driver) *)
+Definition m0 : str := [109; 48].
+Definition k0 : str := [107; 48].
+Definition k1 : str := [107; 49].
+Definition v0 : str := [118; 48].
+Definition v1 : str := [118; 49].
+Definition uni : universe := {| u_ms := [m0]; u_ks := [k0; k1]; u_vs := [v0; v1] |}.
+
+Definition run_hist (parts : nat) (maxlog : N) (ops : list op) : index :=
+  fold_left step_settle ops (new_index parts maxlog false).
+Definition spec_hist (ops : list op) : spec := fold_left spec_step ops [].
+(** the full statement of the property on one history, over the universe [uni] *)
+Definition refines_live (st : index) (sp : spec) : bool := oracle uni true false sp (snd (observe uni st)).
+
+(** 1: drop one of two series of a measurement: its tag value stays listed *)
+Definition hist_value : list op :=
+  [OCreate [(6, (m0, [(k0, v0)]), 0%nat); (14, (m0, [(k0, v1)]), 0%nat)];
+   ODropSeries 6 0%nat; ODropIfNone m0; OSfDelete [6]].
+Lemma tag_values_refuted :
+  let st := run_hist 1 1048576 hist_value in let sp := spec_hist hist_value in
+  refines_live st sp = false /\
+  str_mem v0 (i_vals st m0 k0) = true /\ str_mem v0 (spec_vals sp true m0 k0) = false /\
+  snd (i_vseries st m0 k0 v0) = [].
+Proof. vm_compute. repeat split. Qed.
+
+(** 2: drop the measurement's only series (so the measurement is dropped) after a log
+    compaction, re-create the measurement with another tag key: the old key is listed again;
+    without the compaction (large log) it is not: the answer depends on the schedule *)
+Definition hist_keys : list op :=
+  [OCreate [(6, (m0, [(k0, v0)]), 0%nat)]; ODropSeries 6 0%nat; ODropIfNone m0; OSfDelete [6];
+   OCreate [(7, (m0, [(k1, v1)]), 0%nat)]].
+Lemma tag_keys_refuted :
+  let st := run_hist 1 5 hist_keys in let sp := spec_hist hist_keys in
+  refines_live st sp = false /\
+  str_mem k0 (i_keys st m0) = true /\ str_mem k0 (spec_keys sp true m0) = false.
+Proof. vm_compute. repeat split. Qed.
+Lemma schedule_dependence :
+  str_mem k0 (i_keys (run_hist 1 5 hist_keys) m0) = true /\
+  str_mem k0 (i_keys (run_hist 1 1048576 hist_keys) m0) = false /\
+  refines_live (run_hist 1 1048576 hist_keys) (spec_hist hist_keys) = true.
+Proof. vm_compute. repeat split. Qed.
+
+(** 3: Index.DropMeasurement leaves the partition's series id set stale: the measurement is not
+    dropped when its later series are all dropped, and stays listed, also after reopen *)
+Definition hist_meas : list op :=
+  [OCreate [(6, (m0, [(k0, v0)]), 0%nat)]; ODropMeas m0; OSfDelete [6];
+   OCreate [(7, (m0, [(k0, v1)]), 0%nat)]; ODropSeries 7 0%nat; ODropIfNone m0; OSfDelete [7]; OReopen].
+Lemma measurement_names_refuted :
+  let st := run_hist 1 5 hist_meas in let sp := spec_hist hist_meas in
+  refines_live st sp = false /\
+  str_mem m0 (i_meas st) = true /\ spec_meas sp true = [] /\ i_mseries st m0 = [].
+Proof. vm_compute. repeat split. Qed.
+
+(** non-vacuity of the compaction theorems: four rolled log files that the policy compacts into one level-3 file; the
+    state condition holds *)
+Definition hist_nv : list op :=
+  [OCreate [(6, (m0, [(k0, v0)]), 0%nat)]; OCreate [(14, (m0, [(k0, v1)]), 0%nat)];
+   ODropSeries 6 0%nat; ODropIfNone m0; OSfDelete [6]; OCreate [(7, (m0, [(k1, v1)]), 0%nat)]].
+Lemma nonvacuous :
+  let st := fold_left step hist_nv (new_index 1 5 false) in
+  st_okb st = true /\ shape st = [[0; 0; 0; 0; 0]] /\
+  shape (settle st) = [[0; 3]] /\
+  i_keys st m0 = [k0; k1] /\ i_keys (settle st) m0 = [k0; k1].
+Proof. vm_compute. repeat split. Qed.
+
+(** reopen = rebuild every log file from its bytes, keep the index files, maybe start a new
+    empty log: every file comes back as it was and no query answer changes *)
+Theorem reopen_identity (crc : list N -> N) (crc_range : forall l, crc l < 2 ^ 32) sf maxlog p :
+  (forall f, In f (p_files p) -> f_level f = 0 -> Forall wf_entry (f_log f) /\ replay sf (f_log f) = f) ->
+  (forall f, In f (p_files p) -> f_level f = 0 ->
+     replay sf (fst (recover crc (enc_log crc (f_log f)))) = f) /\
+  let p' := p_reopen sf maxlog p in
+  (p_files p' = p_files p \/ p_files p' = empty_log :: p_files p) /\
+  (forall m, In m (q_meas (p_files p')) <-> In m (q_meas (p_files p))) /\
+  (forall m k, In k (q_keys (p_files p') m) <-> In k (q_keys (p_files p) m)) /\
+  (forall m k v, In v (q_vals (p_files p') m k) <-> In v (q_vals (p_files p) m k)) /\
+  (forall m y, In y (q_mseries (p_files p') m) <-> In y (q_mseries (p_files p) m)) /\
+  (forall m k y, In y (q_kseries (p_files p') m k) <-> In y (q_kseries (p_files p) m k)).
+Proof.
+  intro H. split.
+  - intros f Hf L. destruct (H f Hf L) as [W E]. apply reopen_log_file; assumption.
+  - assert (S : splice_of p (p_reopen sf maxlog p)).
+    { apply reopen_partition. intros f Hf L. apply (H f Hf L). }
+    cbn zeta. split.
+    + unfold p_reopen.
+      assert (E : map (fun f => if N.eqb (f_level f) 0 then replay sf (f_log f) else f) (p_files p) = p_files p).
+      { rewrite <- (map_id (p_files p)) at 2. apply map_ext_in. intros f Hf.
+        destruct (N.eqb (f_level f) 0) eqn:L; [|reflexivity]. apply (H f Hf). apply N.eqb_eq. exact L. }
+      rewrite E. cbn [p_files]. destruct (p_files p) as [|a r]; [right; reflexivity|].
+      destruct (N.eqb (f_level a) 0 && N.ltb (log_size a) maxlog); [left | right]; reflexivity.
+    + repeat split; intros.
+      all: try (apply (proj1 (sp_meas p _ S m)) + apply (proj2 (sp_meas p _ S m))); try assumption.
+      all: try (apply (proj1 (sp_keys p _ S m k)) + apply (proj2 (sp_keys p _ S m k))); try assumption.
+      all: try (apply (proj1 (sp_vals p _ S m k v)) + apply (proj2 (sp_vals p _ S m k v))); try assumption.
+      all: try (apply (proj1 (sp_mseries p _ S m y)) + apply (proj2 (sp_mseries p _ S m y))); try assumption.
+      all: try (apply (proj1 (sp_kseries p _ S m k y)) + apply (proj2 (sp_kseries p _ S m k y))); assumption.
+Qed.
